@@ -273,6 +273,18 @@ def tree_pairs(ctx, rng, k):
     with T.Tree(spec, 'c18-') as tr:
         root = tr.root
         broot = os.fsencode(root)
+        # `.` / `..` as the first segment (the walker compares them with its own str / bytes constants): the tree root sits in a
+        # private parent directory, so `..` shows that parent alone
+        base = os.path.basename(root)
+        for pat in ('..', '../*', '../*/*', '../' + base + '/*', '.', './*', './../' + base + '/*', '../.'):
+            for fn in (['MARK'], ['GLOBSTAR', 'DOTGLOB'], ['SCANDOTDIR', 'NODIR']):
+                flags = flags_of(fn)
+                wit = {'api': 'glob.glob', 'pattern': pat, 'flags': fn, 'tree': spec, 'mode': 'dot-segments'}
+                pair(ctx, 'glob on a tree (dot segments first)', wit, lambda: G.glob(pat, flags=flags, root_dir=root),
+                     lambda: G.glob(enc(pat), flags=flags, root_dir=broot))
+                pair(ctx, 'iglob on a tree (dot segments first)', wit, lambda: list(G.iglob(pat, flags=flags, root_dir=root)),
+                     lambda: list(G.iglob(enc(pat), flags=flags, root_dir=broot)))
+                ctx.count('dot_segment_pairs', 2)
         for j in range(8):
             toks = gen.rand_path_tokens(rng, maxseg=rng.randint(1, 3), alpha='abA.', depth=1)
             if gen.ambiguous_adjacency(toks) or (toks and toks[0][0] == 'sep'):
